@@ -90,7 +90,7 @@ def r12_2(ctx, R):
             n += 1
             ok = any(b.dominates(x, bb) for x in falseb) and _writes_true_before(ctx, R, b, bb)
             ctx.ob("R12.2", b, "enqueue-only-on-false->true@%s" % _site_label(b, bb), ok, b.loc(bb))
-    ctx.floor("R12.2", "enqueue-sites", n, 2)
+    ctx.floor("R12.2", "enqueue-sites", n, 1)
     mark = R.mark_fn
     ins = R.insert_fn
     k = 0
@@ -123,8 +123,10 @@ def r12_2(ctx, R):
         allw = direct_sites(b, _roles.RE_WAKE)
         if not allw:
             continue
-        task = {x[0] for x in R.task_wake_sites(b)}
+        task = {x[0] for x in R.task_wake_sites(b, strict=True)}
         for bb, t, fn in allw:
+            if b in R.mark_fns:
+                continue   # a marking primitive implemented through the slot waker: that call IS the push's one token
             ctx.ob("R12.2", b, "wake-call-is-on-the-caller's-task-waker@%s" % _site_label(b, bb), bb in task, b.loc(bb),
                    "receiver %s" % expr_str(strip_refs(ctx.flow(b).operand_expr(t["args"][0]))))
     c01.r1_6(ctx, R)
